@@ -15,6 +15,7 @@ import sim  # noqa: E402
 
 sim.use_repo()
 import jinja2  # noqa: E402
+import jinja2.meta  # noqa: E402
 from jinja2.sandbox import SandboxedEnvironment  # noqa: E402
 
 
@@ -46,12 +47,36 @@ def main():
     corpus = {c["id"]: c for c in job["corpus"]}
     envs = {}
 
+    import random
+
+    drng = random.Random(job.get("dseed", 0))
+    disturb = bool(job.get("dseed"))
+    DISTURBANCES = [
+        lambda e, s: e.compile_expression("price|nosuchfilter_zz"),          # parses, fails while code is generated
+        lambda e, s: e.compile_expression("x is nosuchtest_zz"),
+        lambda e, s: e.compile_expression("a + b|default(1)"),               # succeeds
+        lambda e, s: e.compile_expression("10 ** 5000 ~ x"),
+        lambda e, s: e.from_string("{% macro m(a=1|nosuch_zz) %}{% endmacro %}"),
+        lambda e, s: e.from_string("{% set q = 1|nosuch_zz %}{% for i in q %}{% endfor %}"),
+        lambda e, s: e.parse("{% for %}"),
+        lambda e, s: list(e.lex(s[:80])),
+        lambda e, s: jinja2.meta.find_undeclared_variables(e.parse(s)),
+        lambda e, s: list(jinja2.meta.find_referenced_templates(e.parse(s))),
+        lambda e, s: e.from_string("{% if x %}{{ y }}").render(),
+    ]
+
     def compile_one(cid):
         c = corpus[cid]
         key = json.dumps(c["cfg"], sort_keys=True)
         env = envs.get(key)
         if env is None:
             env = envs[key] = make_env(c["cfg"])
+        if disturb and drng.randrange(4) == 0:
+            # something else happens in this environment first (often: a compilation that FAILS half-way)
+            try:
+                DISTURBANCES[drng.randrange(len(DISTURBANCES))](env, c["source"])
+            except Exception:
+                pass
         try:
             return env.compile(c["source"], c["name"], None, raw=True)
         except jinja2.TemplateSyntaxError as e:
